@@ -357,10 +357,15 @@ def run_text(ctx):
     import tempfile
     import warnings
     exps = [5, 68, 69, 70, 100, 127, 128, 150, 196, 197, 200, 255, 256, 1000] if ctx.quick else list(range(60, 300, 3)) + [1000, 5000]
+    # exponents whose key character is a Unicode blank, placed where a header field ends (last term, last indeterminate;
+    # seeded change C20-13: a header pattern with \s / \S cut that key short)
+    blanks = [74, 101, 5701, 8133, 8143, 8173, 8228, 12229]
+    exps = exps + (blanks[:4] if ctx.quick else blanks)
     with tempfile.TemporaryDirectory() as tmp, warnings.catch_warnings():
         warnings.simplefilter("ignore")
         for e in exps:
-            p = numpoly.ndpoly.from_attributes([[2, 0], [e, 1]], [numpy.array([1.0, 2.0]), numpy.array([3.0, -1.0])], ("q0", "q1"))
+            p = numpoly.ndpoly.from_attributes([[2, 0], [e, 1]] if e not in blanks else [[0, 0], [1, e]],
+                                               [numpy.array([1.0, 2.0]), numpy.array([3.0, -1.0])], ("q0", "q1"))
             want = den_of_struct(poly_to_struct(p))
             routes = []
             for saver in (numpoly.savetxt, numpy.savetxt):
